@@ -419,6 +419,8 @@ func (q *LinkedListQueue[T]) Shift() (T, error) {
 	q.first = node.Next
 	if q.first == nil {
 		q.last = nil
+	} else {
+		q.first.Prev = nil
 	}
 	val := *node.Val
 
@@ -459,6 +461,8 @@ func (q *LinkedListQueue[T]) Pop() (T, error) {
 	q.last = node.Prev
 	if q.last == nil {
 		q.first = nil
+	} else {
+		q.last.Next = nil
 	}
 	val := *node.Val
 	q.recycleNode(node)
